@@ -39,6 +39,148 @@ type c14Expect struct {
 	// CompletionOnly: only the completion-before-return clauses are decided (UNION results are
 	// broken on this tree - C06, not claimed - and EXISTS may stop evaluating early)
 	CompletionOnly bool `json:"completion_only,omitempty"`
+	// differential cases: Template holds %Q% where the qualifier goes; the qualified query must return what the
+	// unqualified one returns (as a multiset when Multiset), also on a second Exec of the same Query (Twice)
+	Template string `json:"template,omitempty"`
+	Qual     string `json:"qual,omitempty"`
+	Multiset bool   `json:"multiset,omitempty"`
+	Twice    bool   `json:"twice,omitempty"`
+}
+
+// c14Differential: shapes in which the column an ASYNC call fills is consumed by a later stage of the same
+// statement (DISTINCT, ORDER BY, a join over a derived table, FUSE, AWAIT over a nested select, LIMIT, a second
+// Exec). "Qualifying a call with ASYNC changes when it runs, not what the query returns": the qualified query is
+// compared with the same query without the qualifier.
+var c14Differential = []struct {
+	tpl      string
+	multiset bool
+}{
+	{"SELECT DISTINCT %Q%fx(1, a) AS v FROM t", true},
+	{"SELECT DISTINCT s, %Q%fx(1, a) AS v FROM t", true},
+	{"SELECT id, %Q%fx(1, a) AS v FROM t ORDER BY v DESC, id", false},
+	{"SELECT id, %Q%fx(1, a) AS v FROM t ORDER BY v, id DESC", false},
+	{"SELECT * FROM (SELECT id, %Q%fx(1, a) AS v FROM t) x JOIN k y ON x.id = y.id", true},
+	{"SELECT x.v AS v, y.id AS id FROM (SELECT id, %Q%fx(1, a) AS v FROM t) x LEFT JOIN k y ON x.id = y.id", true},
+	{"SELECT * FROM k y JOIN (SELECT id, %Q%fx(1, a) AS v FROM t) x ON x.id = y.id", true},
+	{"SELECT id, FUSE((SELECT %Q%fx(1, a) AS v FROM dual)) FROM t", false},
+	{"SELECT id, FUSE((SELECT %Q%fx(1, a) AS v FROM dual)) AS p FROM t", false},
+	{"SELECT id, AWAIT((SELECT %Q%fx(1, a) AS v FROM dual)) AS x FROM t", false},
+	{"SELECT id, AWAIT(%Q%fx(1, a)) AS v FROM t", false},
+	{"SELECT id, (SELECT v, %Q%fx(1, v) AS av FROM n) AS sub FROM t", false},
+	{"SELECT id, %Q%fx(1, a) AS v FROM t LIMIT 2", false},
+	{"SELECT id, %Q%fx(1, a) AS v FROM t WHERE a >= 10", false},
+	{"WITH c AS (SELECT id, %Q%fx(1, a) AS v FROM t) SELECT DISTINCT v FROM c", true},
+	{"WITH c AS (SELECT id, %Q%fx(1, a) AS v FROM t) SELECT id, v FROM c ORDER BY v DESC, id", false},
+	{"SELECT * FROM (SELECT DISTINCT %Q%fx(1, a) AS v FROM t) d", true},
+}
+
+func genC14Differential(t *rapid.T) *Bundle {
+	n := rapid.IntRange(0, 6).Draw(t, "nrows")
+	rows := []any{}
+	keys := []any{}
+	for i := 0; i < n; i++ {
+		nested := []any{}
+		for j := 0; j < rapid.IntRange(0, 2).Draw(t, "nn"); j++ {
+			nested = append(nested, map[string]any{"v": float64(rapid.IntRange(0, 3).Draw(t, "v"))})
+		}
+		// few distinct values: DISTINCT has duplicates to remove, ORDER BY has ties to break
+		rows = append(rows, map[string]any{"id": float64(i + 1), "a": float64(rapid.IntRange(0, 2).Draw(t, "a") * 10), "s": rapid.SampledFrom([]string{"x", "y"}).Draw(t, "s"), "n": nested})
+		if rapid.IntRange(0, 3).Draw(t, "has_partner") > 0 {
+			keys = append(keys, map[string]any{"id": float64(i + 1)})
+		}
+	}
+	d := rapid.SampledFrom(c14Differential).Draw(t, "diff_tpl")
+	qual := rapid.SampledFrom([]string{"ASYNC.", "ASYNC.", "async.", "SPINASYNC."}).Draw(t, "diff_qual")
+	if qual == "SPINASYNC." && !strings.Contains(d.tpl, "AS v FROM t LIMIT") && !strings.Contains(d.tpl, "AS v FROM t WHERE") {
+		qual = "ASYNC." // SPINASYNC adds no column: only meaningful where the column is not consumed
+	}
+	exp := c14Expect{Place: "differential", Template: d.tpl, Qual: qual, Multiset: d.multiset, Twice: rapid.Bool().Draw(t, "diff_twice")}
+	q := strings.ReplaceAll(d.tpl, "%Q%", qual)
+	c := oneClientCase("C14", drawSim(t, ""), map[string]any{"t": rows, "k": keys}, casefmt.Op{Doc: 0, Vars: -1, Query: q, ExecTwice: exp.Twice})
+	c.Stubs.Lat = drawLatencies(t, []int{1}, 7)
+	return &Bundle{Prop: "C14", Kind: "differential", Case: c, Expect: mustJSON(exp), Tags: []string{"place:differential"}}
+}
+
+func evalC14Differential(b *Bundle, r *Runner, exp *c14Expect) []*Violation {
+	vs := evalC14Diff(b, r, exp)
+	// one finding per shape
+	for _, v := range vs {
+		for i, d := range c14Differential {
+			if d.tpl == exp.Template {
+				v.Sig = strings.Replace(v.Sig, "differential", fmt.Sprintf("differential:%d", i), 1)
+			}
+		}
+	}
+	return vs
+}
+
+func evalC14Diff(b *Bundle, r *Runner, exp *c14Expect) []*Violation {
+	o := r.Run(&b.Case, false)
+	if vs := processHealth(b, o); len(vs) > 0 {
+		return vs
+	}
+	plain := b.Case
+	plain.Clients = []casefmt.Client{{Name: "client0", Ops: []casefmt.Op{{Doc: 0, Vars: -1, Query: strings.ReplaceAll(exp.Template, "%Q%", ""), ExecTwice: exp.Twice}}}}
+	plain.Sim.Strategy, plain.Sim.ChangePoints = "np", nil
+	p := r.Run(&plain, false)
+	if len(processHealth(b, p)) > 0 || len(p.Ops) != 1 || failed(&p.Ops[0]) || p.Ops[0].Panic != "" {
+		r.Stats.probe("differential_plain_form_fails_skipped")
+		return nil
+	}
+	op, pop := &o.Ops[0], &p.Ops[0]
+	q := b.Case.Clients[0].Ops[0].Query
+	if !op.Returned {
+		return []*Violation{mkViolation(b, "NO_RETURN", "", "the query did not return although the run terminated", o)}
+	}
+	if failed(op) || op.Panic != "" {
+		return []*Violation{mkViolation(b, "UNEXPECTED_ERROR", "differential", fmt.Sprintf("%s failed (%s%s%s) while the unqualified form succeeds", q, op.NewErr, op.ExecErr, op.Panic), o)}
+	}
+	// completion before return and one invocation per invocation of the unqualified form
+	calls, pcalls, late := 0, 0, 0
+	for _, c := range o.Calls {
+		calls++
+		// (invocations of a second Exec start after the first one returned)
+		if c.SeqStart < op.SeqReturn && (c.SeqEnd == 0 || c.SeqEnd > op.SeqReturn) {
+			late++
+		}
+	}
+	pcalls = len(p.Calls)
+	if late > 0 {
+		return []*Violation{mkViolation(b, "INCOMPLETE_AT_RETURN", "differential", fmt.Sprintf("%s: %d of %d invocation(s) had not completed when Exec returned", q, late, calls), o)}
+	}
+	if calls != pcalls {
+		return []*Violation{mkViolation(b, "CALL_COUNT", "differential", fmt.Sprintf("%s: %d invocation(s), the unqualified form makes %d (second Exec: %v)", q, calls, pcalls, exp.Twice), o)}
+	}
+	same := func(a, c json.RawMessage) bool {
+		if exp.Qual == "SPINASYNC." {
+			return true // no column to compare; the row set is compared by C12/C20-style checks elsewhere
+		}
+		x, y := normJSON(a), normJSON(c)
+		if jsonEqual(x, y) {
+			return true
+		}
+		xa, ok1 := asArray(x)
+		ya, ok2 := asArray(y)
+		return exp.Multiset && ok1 && ok2 && multisetEqual(xa, ya)
+	}
+	cls := "ASYNC_CHANGES_RESULT"
+	if len(op.Leaks) > 0 {
+		cls = "UNRESOLVED_SLOT_IN_RESULT"
+	}
+	if !same(op.Rows, pop.Rows) {
+		return []*Violation{mkViolation(b, cls, "differential", fmt.Sprintf("%s\n returned      %s\n unqualified   %s", q, compact(op.Rows), compact(pop.Rows)), o)}
+	}
+	if exp.Twice {
+		if op.Exec2 != "ok" || !same(op.Rows2, pop.Rows2) {
+			return []*Violation{mkViolation(b, cls, "differential second_exec", fmt.Sprintf("%s, Exec called a second time on the same Query: %s\n returned      %s\n unqualified   %s", q, op.Exec2, compact(op.Rows2), compact(pop.Rows2)), o)}
+		}
+		r.Stats.probe("differential_second_exec_compared")
+	}
+	if string(op.Rows) != string(op.RowsAfter) && !exp.Twice {
+		return []*Violation{mkViolation(b, "RESULT_CHANGED_AFTER_RETURN", "differential", fmt.Sprintf("at return %s\n after drain %s", compact(op.Rows), compact(op.RowsAfter)), o)}
+	}
+	r.Stats.probe("differential_cases_compared")
+	return nil
 }
 
 func c14ItemSQL(it c14Item) string {
@@ -274,6 +416,8 @@ func genC14(t *rapid.T) *Bundle {
 		return genC14AwaitDerived(t)
 	case 6:
 		return genC14OnceInJoinOn(t)
+	case 7, 8, 9, 10, 11, 12:
+		return genC14Differential(t)
 	}
 	nrows := rapid.IntRange(0, 6).Draw(t, "nrows")
 	place := rapid.SampledFrom([]string{"top", "derived_star", "cte", "subquery", "derived_cols", "subquery_in_derived", "subquery_in_cte", "union_branch", "exists", "cte_chain"}).Draw(t, "place")
@@ -546,6 +690,9 @@ func evalC14(b *Bundle, r *Runner) []*Violation {
 	var exp c14Expect
 	if err := json.Unmarshal(b.Expect, &exp); err != nil {
 		infra("C14: bad expectation: %v", err)
+	}
+	if exp.Place == "differential" {
+		return evalC14Differential(b, r, &exp)
 	}
 	o := r.Run(&b.Case, false)
 	vs := processHealth(b, o)
